@@ -311,7 +311,8 @@ func runC06(c *Ctx) {
 	loadCorpus()
 	rng := c.Rand("pools")
 	g := newDocGen(c.Rand("mut"))
-	cfgs := []mdConfig{{Ext: "all", AutoID: true, Attr: true}, {Ext: "gfm"}, {Ext: "nocjk", AutoID: true, XHTML: true}, {Ext: "footnote", HardWraps: true}, {Ext: "typographer", Unsafe: true}, {Ext: "core", AutoID: true}, {Ext: "deflist", Attr: true}, {Ext: "all", Unsafe: true, XHTML: true, HardWraps: true}}
+	cfgs := []mdConfig{{Ext: "all", AutoID: true, Attr: true}, {Ext: "gfm"}, {Ext: "nocjk", AutoID: true, XHTML: true}, {Ext: "footnote", HardWraps: true}, {Ext: "typographer", Unsafe: true}, {Ext: "core", AutoID: true}, {Ext: "deflist", Attr: true}, {Ext: "all", Unsafe: true, XHTML: true, HardWraps: true},
+		{Ext: "allopts", AutoID: true}, {Ext: "allopts", XHTML: true, Attr: true}} // every extension with non-default options (templates, functions, substitutions)
 	if c.Thorough() {
 		cfgs = nil
 		for i, cf := range allConfigs() {
@@ -319,6 +320,7 @@ func runC06(c *Ctx) {
 				cfgs = append(cfgs, cf)
 			}
 		}
+		cfgs = append(cfgs, mdConfig{Ext: "allopts", AutoID: true}, mdConfig{Ext: "allopts", XHTML: true, Attr: true}, mdConfig{Ext: "allopts", Unsafe: true, HardWraps: true})
 	}
 	pick := func() string {
 		switch rng.Intn(4) {
